@@ -108,6 +108,11 @@ func (b *bitMask256) toTypes(reg *registry) []ID {
 	totalIDs := reg.Count()
 	bins := totalIDs/wordSize + 1
 	bits := totalIDs % wordSize
+	if bits == 0 {
+		// The last word is completely used (or there are no IDs at all).
+		bins--
+		bits = wordSize
+	}
 
 	idx := 0
 	for i := range bins {
